@@ -41,6 +41,15 @@ CATALOGUE = {
     "Additive": dict(d=_d(["S", "I", "R"], ["beta", "gamma"],
                           odes=[("S", "beta - S**2"), ("I", "0.5*S*I - I + gamma"), ("R", "I - S*R**2")]),
                      theta=[[0.8, 0.3], [0.5, 0.6]], x0=[[0.6, 0.9, 0.4], [1.1, 0.3, 0.8]]),
+    # parameters enter only as constant terms: all mixed state-parameter and parameter-parameter second derivatives vanish
+    "Additive2": dict(d=_d(["S", "I"], ["beta", "gamma", "mu"],
+                           odes=[("S", "beta + 2*gamma - S*I"), ("I", "S*I - I**2 + mu - gamma")]),
+                      theta=[[0.7, 0.2, 0.5], [0.4, 0.35, 0.8]], x0=[[0.8, 0.5], [1.2, 0.9]]),
+    "Additive1": dict(d=_d(["S"], ["beta", "gamma"], odes=[("S", "beta + 0.5*gamma - S**3")]),
+                      theta=[[0.9, 0.4], [0.3, 1.1]], x0=[[0.4], [1.3]]),
+    # a parameter product: the parameter-parameter second derivative is non-zero
+    "ParamProduct": dict(d=_d(["S", "I"], ["beta", "gamma"], [("beta*gamma*S", [T("S", "I")]), ("gamma*I", [D("I")])]),
+                         theta=[[0.9, 0.7], [1.4, 0.4]], x0=[[2.0, 0.5], [1.0, 1.5]]),
 }
 
 
